@@ -50,6 +50,7 @@ def check(cx):
         'R13.5 the encoder appends exactly CR LF after the payload; only BufferedLineStream::flush writes to the socket, draining the buffer in order',
         'R13.6 every relay/reply template places client-chosen free text last, introduced by " :"',
         'R13.7 the relay serialiser prefixes the last parameter with " :" when it is empty or contains a space, tab or colon, and joins earlier parameters by single spaces',
+        'R13.9 offset coordinates in the parser: the length of a piece found inside the sub-slice base[a..] is used as an offset into base only with a added',
         'R13.8 the trailing parameter is split off at " :" (accepted idiom); a split at a bare \':\' necessarily misreads "X a:b c"',
     ]
     ck.does_not_decide += ['agreement of the tokeniser with the grammar over all strings beyond R13.8 (blank runs, tabs, multi-byte text)',
@@ -361,6 +362,10 @@ def check(cx):
     r8 = cx.rule('R13.8', 'trailing-parameter delimiter idiom', floor=1, kind='idiom')
     ffs = cx.fn('from_shared_str')
     wfs = cx.walk(ffs, args=[P('input')], key='c13')
+    r9 = cx.rule('R13.9', 'offset coordinates of re-sliced pieces', floor=0, kind='arithmetic')
+    n9 = check_offset_coordinates(cx, r9, wfs, ffs)
+    if n9 == 0:
+        r9.instance('from_shared_str re-slices no searched piece by its length (nothing to check)')
     splits = [e for e in wfs.events if e.kind == 'call' and e.data['name'] in ('split_once', 'find', 'splitn', 'split', 'rsplit_once', 'rfind')
               and len(e.data['args']) >= 2 and e.data['args'][1][0] == 'lit' and ':' in str(e.data['args'][1][1])]
     r8.instance('delimiter searches: %s' % [(e.data['name'], e.data['args'][1][1]) for e in splits])
@@ -374,6 +379,59 @@ def check(cx):
                          'not start the trailing parameter; the delimiter is " :")', loc=cx.loc(e.node))
         elif patt not in (' :', ':'):
             r8.undecide('delimiter literal %r not classified' % patt)
+
+
+def _piece_origin(x):
+    """x is a leading piece (split_once(..).0 / find result prefix) of ('index', base, RangeFrom(start=a)): return (base, a)"""
+    t = x
+    for _ in range(6):
+        if not isinstance(t, tuple) or not t:
+            return None
+        if t[0] == 'field' and t[2] == '0':
+            t = t[1]
+        elif t[0] == 'some_of':
+            t = t[1]
+        elif t[0] == 'call' and t[1].split('::')[-1] in ('split_once', 'rsplit_once') and len(t) >= 3:
+            s = t[2]
+            if isinstance(s, tuple) and s[0] == 'index' and isinstance(s[2], tuple) and s[2][0] == 'adt' and s[2][2] == 'RangeFrom':
+                return s[1], dict(s[2][3]).get('start')
+            return None
+        else:
+            return None
+    return None
+
+
+def check_offset_coordinates(cx, rule, w, fn):
+    n = 0
+    for e in w.events:
+        if e.kind != 'index':
+            continue
+        base, idx = e.data['base'], e.data['index']
+        if not (isinstance(idx, tuple) and idx[0] == 'adt' and idx[1].startswith('std::ops::Range')):
+            continue
+        for bound, term in dict(idx[3]).items():
+            lens = [t for t in subterms(term) if isinstance(t, tuple) and t and t[0] == 'len' and _piece_origin(t[1]) is not None]
+            other = [t for t in subterms(term) if isinstance(t, tuple) and t and ((t[0] == 'len' and _piece_origin(t[1]) is None and t[1] != base)
+                                                                                   or (t[0] == 'call' and t[1].split('::')[-1] in ('find', 'rfind', 'position')))]
+            for t in other:
+                org = [x for x in subterms(t) if isinstance(x, tuple) and x and x[0] == 'index' and x[1] == base
+                       and isinstance(x[2], tuple) and x[2][0] == 'adt' and x[2][2] == 'RangeFrom' and dict(x[2][3]).get('start') != ('lit', 0)]
+                if org:
+                    rule.undecide('%s: a slice bound of the line uses %s, computed inside a sub-slice starting at a non-zero offset; '
+                                  'the coordinate rule does not know this idiom' % (short_fn(fn), show_term(t)[:60]))
+            for L in lens:
+                ob, a = _piece_origin(L[1])
+                if ob != base:
+                    continue
+                n += 1
+                rule.instance('%s: %s of a slice of the line = len(piece) + offset of the searched sub-slice' % (short_fn(fn), bound))
+                ok = a == ('lit', 0) or term in (('add', L, a), ('add', a, L))
+                if not ok:
+                    rule.violation('%s|offset-coordinates|%s' % (short_fn(fn), bound), 'the length of a piece found in line[%s..] is used as the %s of a '
+                                   'slice of the whole line without adding %s: the slice is misplaced by that many bytes (a line with a '
+                                   ':source prefix loses the last character before the trailing parameter)'
+                                   % (show_term(a)[:40], bound, show_term(a)[:40]), loc=cx.loc(e.node))
+    return n
 
 
 def _tokenised(t):
